@@ -99,7 +99,7 @@ package types
 
 //@ func NewPartSetFromHeader
 //@   props C17 C08
-//@   requires header.Total >= 0
+//@   aborts when header.Total < 0
 //@   assigns  nothing
 //@   ensures  wfPartSet(result) && fresh(result) && result.total == header.Total && result.hash == header.Hash && result.count == 0
 //@   ensures  forall(j, 0, result.total, result.parts[j] == nil)
@@ -256,6 +256,8 @@ package types
 //@   requires voteSet != nil ==> wfVoteSet(voteSet) && majInv(voteSet)
 //@   requires vote != nil
 //@   aborts when voteSet == nil
+//@   assigns  voteSet.votes[*], voteSet.votesBitArray.Elems[*], voteSet.votesBitArray.mtx.*, voteSet.sum, voteSet.maj23, voteSet.votesByBlock[*], voteSet.valSet.totalVotingPower, voteSet.mtx.*, \
+//@            voteSet.votesByBlock[keyOf(vote.BlockID)].votes[*], voteSet.votesByBlock[keyOf(vote.BlockID)].sum, voteSet.votesByBlock[keyOf(vote.BlockID)].bitArray.Elems[*], voteSet.votesByBlock[keyOf(vote.BlockID)].bitArray.mtx.*
 //@   ensures  added ==> vote.Height == voteSet.height && vote.Round == voteSet.round && vote.Type == voteSet.type_ \
 //@              && 0 <= vote.ValidatorIndex && vote.ValidatorIndex < len(voteSet.votes) \
 //@              && sigOK(pubKeyAt(voteSet.valSet, vote.ValidatorIndex), voteSB(voteSet.chainID, vote), vote.Signature)
@@ -263,6 +265,7 @@ package types
 //@   ensures  wfVoteSet(voteSet) && majInv(voteSet)
 
 //@ func (*VoteSet).TwoThirdsMajority
+//@   noalloc
 //@   props C15 C04 C01
 //@   assigns  voteSet.mtx.*
 //@   ensures  ok == (voteSet != nil && voteSet.maj23 != nil)
@@ -270,11 +273,13 @@ package types
 //@   ensures  !ok ==> blockID.Hash == nil && blockID.PartsHeader.Total == 0 && blockID.PartsHeader.Hash == nil
 
 //@ func (*VoteSet).HasTwoThirdsMajority
+//@   noalloc
 //@   props C15 C04
 //@   assigns  voteSet.mtx.*
 //@   ensures  result == (voteSet != nil && voteSet.maj23 != nil)
 
 //@ func (*VoteSet).HasTwoThirdsAny
+//@   noalloc
 //@   props C15 C04
 //@   requires voteSet != nil ==> wfVoteSet(voteSet)
 //@   assigns  voteSet.mtx.*, voteSet.valSet.totalVotingPower
